@@ -27,6 +27,9 @@ def gen_case(rng):
     return scn, {"seed": rng.getrandbits(32), "steps": rng.randint(1, 3)}
 
 
+UNOBSERVED = []   # pool stages that ran but whose queue could not be read off download_pool_files()
+
+
 def pool_row(rows, jc, scn, base, files, plan, res, what, mrows=None):
     """one real run -> a Converge.pool_run case per repository whose pool stage ran"""
     faults = R.realise_plan(plan or {}, files)
@@ -34,6 +37,8 @@ def pool_row(rows, jc, scn, base, files, plan, res, what, mrows=None):
         url = r["url"]
         o = res.obs.get(url, {})
         if "pool_queue" not in o:
+            if "pool_pre" in o:
+                UNOBSERVED.append((what, o.get("pool_queue_error")))
             if mrows is not None and "meta_queue" in o and o.get("selected"):
                 mt, mw = R.meta_tie_row(o, files[url], faults.get(url, {}))
                 mrows.append((dict(jc, run=what), mt, mw, {"queued": len(o["meta_queue"]),
@@ -181,6 +186,13 @@ def run(rep: C.Report):
     finally:
         shutil.rmtree(sb, ignore_errors=True)
     # the pool stage + cleaning of every recorded run, replayed on Converge.pool_run from the real previous tree
+    rep.count("pool_tie.stages_not_observed", len(UNOBSERVED))
+    if UNOBSERVED and not found:
+        rep.violation(f"correspondence pool: {len(UNOBSERVED)} pool stages ran but their queue could not be observed "
+                      f"({UNOBSERVED[0]}): pool_tree_is_what_the_indices_declare is not tied to these runs",
+                      {"kind": "correspondence-error", "tie": "pool", "theorem": "pool_tree_is_what_the_indices_declare",
+                       "unobserved": [list(map(str, u)) for u in UNOBSERVED[:5]]},
+                      tags={"kind": "tie-error", "tie": "pool"}, no_failing_input=True)
     header = R.POOL_HEADER + R.POOL_DEFS
     for _, _, _, m in rows:
         rep.count("pool_tie.runs")
